@@ -28,7 +28,7 @@ res_demo=$(cd "$wt/pkg/go" && go test -vet=off -count=1 ./${pkg#pkg/go/}/ 2>&1 |
 echo "--- mutant, demo: $res_demo"
 # regenerate the patch against current HEAD so it applies cleanly to /repo
 rm "$wt/$pkg/zz_seed_demo_test.go"
-git -C "$wt" diff > "$dst/patch.diff"
+git -C "$wt" diff HEAD > "$dst/patch.diff"
 git -C /repo apply "$dst/patch.diff" || { echo "cannot apply to /repo"; exit 4; }
 echo "--- check $prop $tier against the mutant:"
 (cd /verif && ./run.sh "$prop" "$tier" 2>&1 | grep -E "^(VIOLATION|OK|INCONCLUSIVE|KNOWN)" | head -4)
